@@ -17,6 +17,7 @@ import sys
 from concurrent.futures import ThreadPoolExecutor
 
 HERE = os.path.dirname(os.path.abspath(__file__))
+NO_DEMO = "--no-demo" in sys.argv  # keep the demonstration result recorded at import time
 SEEDED = os.path.join(os.path.dirname(HERE), "seeded")
 
 
@@ -27,7 +28,9 @@ def needs(notes: str) -> str:
 
 def evaluate(sid: str, tier: str, suite: bool):
     d = os.path.join(SEEDED, sid)
-    cmd = ["/venv/bin/python", os.path.join(HERE, "seedtest.py"), os.path.join(d, "patch.diff"), "--demo", os.path.join(d, "demo.py"), "--tier", tier]
+    cmd = ["/venv/bin/python", os.path.join(HERE, "seedtest.py"), os.path.join(d, "patch.diff"), "--tier", tier]
+    if not NO_DEMO:
+        cmd += ["--demo", os.path.join(d, "demo.py")]
     if suite:
         cmd.append("--suite")
     r = subprocess.run(cmd, capture_output=True, text=True)
@@ -49,10 +52,11 @@ def evaluate(sid: str, tier: str, suite: bool):
         "ran": [
             "patch -p1 < patch.diff on a scratch copy of /repo (tools/seedtest.py)",
             suite_line,
-            f"demo.py with the change: exit {res.get('demo_with_change')}; without: exit {res.get('demo_without_change')}",
+            (f"demo.py with the change: exit {res.get('demo_with_change')}; without: exit {res.get('demo_without_change')}" if not NO_DEMO else
+             next((r for r in meta.get("ran", []) if r.startswith("demo.py")), "demo.py: not re-run")),
             f"all 20 checks ({tier}) with ODATA_REPO=<scratch copy>",
         ],
-        "demo_output": res.get("demo_output"),
+        "demo_output": res.get("demo_output") if not NO_DEMO else meta.get("demo_output"),
         "caught_by": {p: [re.sub(r"^\S+:\d+: ", "", l)[:260] for l in ls[:2]] for p, ls in sorted(res.get("alarms", {}).items())},
         "analysis_error_in": {p: (e[0][:200] if e else "") for p, e in sorted(res.get("errors", {}).items())},
         "silent": res.get("silent", []),
